@@ -373,29 +373,29 @@ Proof.
   destruct ((prop <? 0) || (prop >? P)); [discriminate|].
   destruct (slash_pools op prop (oa s) (dg s) (sl s)) as [[[o' d'] l'] ev2] eqn:E2.
   destruct (slash_pools_keys _ _ _ _ _ _ _ _ _ Sd E2) as [Ko Sd'].
-  assert (forall k, pend_sa k (fst (if eh <? height s then slash_records op eh prop (ur s) else (ur s, []))) = pend_sa k (ur s) /\
-                    pend_oa k (fst (if eh <? height s then slash_records op eh prop (ur s) else (ur s, []))) = pend_oa k (ur s) /\
-                    pend_dg k (fst (if eh <? height s then slash_records op eh prop (ur s) else (ur s, []))) = pend_dg k (ur s)) as PU.
-  { intro k. destruct (eh <? height s); [|simpl; auto]. rewrite slash_records_map.
+  assert (forall k, pend_sa k (fst (if eh <=? height s then slash_records op eh prop (ur s) else (ur s, []))) = pend_sa k (ur s) /\
+                    pend_oa k (fst (if eh <=? height s then slash_records op eh prop (ur s) else (ur s, []))) = pend_oa k (ur s) /\
+                    pend_dg k (fst (if eh <=? height s then slash_records op eh prop (ur s) else (ur s, []))) = pend_dg k (ur s)) as PU.
+  { intro k. destruct (eh <=? height s); [|simpl; auto]. rewrite slash_records_map.
     unfold pend_sa, pend_oa, pend_dg.
     repeat split; apply ssumk_map_vals; intros k0 v; destruct (slash_rec_fun_agg op eh prop k0 v) as (a & b & c & d);
       fold (ksa (slash_rec_fun op eh prop k0 v)) (koa (slash_rec_fun op eh prop k0 v)) (kdg (slash_rec_fun op eh prop k0 v));
       fold (ksa v) (koa v) (kdg v); rewrite ?a, ?b, ?c, ?d; reflexivity. }
-  destruct (if eh <? height s then slash_records op eh prop (ur s) else (ur s, [])) as [u' ev1].
+  destruct (if eh <=? height s then slash_records op eh prop (ur s) else (ur s, [])) as [u' ev1].
   inversion H; subst; clear H. split.
   - unfold srt. simpl. repeat split; [assumption | unfold sorted; rewrite Ko; exact So | assumption].
   - intro k. simpl. destruct (PU k) as (P1 & P2 & P3). simpl in P1, P2, P3. rewrite P1, P2, P3.
     destruct (slash_pools_pend _ _ _ _ _ _ _ _ _ k Sd E2) as [Q1 Q2]. rewrite Q1, Q2. apply A.
 Qed.
 
-Lemma step_J s o : idx_inv s -> J s -> fresh_op s o = true -> J (fst (step s o)).
+Lemma step_J s o : idx_inv s -> J s -> wf_op o = true -> fresh_op s o = true -> J (fst (step s o)).
 Proof.
-  intros I Hj Fr. destruct o; simpl.
+  intros I Hj Wf Fr. destruct o; simpl.
   - destruct (deposit s staker asset x) as [s'|] eqn:E; simpl; [|exact Hj]. eapply deposit_J; eauto.
   - destruct (withdraw s staker asset x) as [s'|] eqn:E; simpl; [|exact Hj]. eapply withdraw_J; eauto.
   - destruct (delegate s staker asset operator x) as [s'|] eqn:E; simpl; [|exact Hj]. eapply delegate_J; eauto.
   - destruct (undelegate s staker asset operator x nonce tx) as [[s' r]|] eqn:E; simpl; [|exact Hj].
-    destruct (hook_panics s operator); simpl; [exact Hj|]. eapply undelegate_J; eauto.
+    eapply undelegate_J; eauto.
   - apply genesis_load_J; assumption.
   - destruct prop as [p|]; simpl; [|exact Hj].
     destruct (slash s operator eh p) as [s'|] eqn:E; simpl; [|exact Hj]. eapply slash_J; eauto.
@@ -404,6 +404,7 @@ Proof.
   - destruct (end_block_idx J (fun s0 r I0 G J0 => proj1 (process_J s0 r I0 J0 G))
                 (fun s0 h J0 => J_ext s0 (w_height h s0) eq_refl eq_refl eq_refl eq_refl J0) s I Hj) as (_ & Q & _).
     exact Q.
+  - discriminate.
 Qed.
 
 Lemma run_J ops : forall s, idx_inv s -> J s -> hist_ok s ops = true -> J (run ops s).
